@@ -199,7 +199,7 @@ DenseMatrix compute_shortest_distances_matrix(RandomAccessIterator begin, Random
 #else
             heap.insert(landmarks[k], 0.0);
 #endif
-            f[k] = true;
+            f[landmarks[k]] = true;
 
             // while heap is not empty
             while (!heap.empty())
